@@ -55,7 +55,7 @@ Record ms_case := mk_ms_case {
 
 Definition check_ms (up : list (N * str)) (g : sgram F64) (k : ms_case) : bool :=
   let upc := upper_of up in
-  match interrupted upc omen_optimizer_max_length omen_first_object_extra
+  match interrupted upc omen_optimizer_max_length omen_first_object_extra session_quit_check_after_pop
                     (follow (ms_order1 k)) g (ms_k k) (ms_j k) cempty, ms_file k with
   | NotSaved out, None => strs_eqb out (ms_out1 k)
   | Saved out f, Some (mp, num, st) =>
@@ -66,7 +66,7 @@ Definition check_ms (up : list (N * str)) (g : sgram F64) (k : ms_case) : bool :
                             (follow (ms_order2 k)) g f (S (length (ms_out2 k))) cempty
                             (S (length (ms_order2 k))) with
       | Some r =>
-          strs_eqb (resumed_out upc g r) (ms_out2 k) &&
+          strs_eqb (resumed_out upc session_omen_restored_before_loop g r) (ms_out2 k) &&
           Nat.eqb (length (rr_rest r)) (ms_rest k) &&
           list_eqb obs_eqb (map obs_of (resumed_pops r)) (ms_order2 k) &&
           is_nil (pending (rr_queue r))
